@@ -763,6 +763,22 @@ v('C19 C14', 'silent', IS, _SMT_OLD,
   "            name = f\"sm_{INDEX_TO_XYZ[axis_out]}{INDEX_TO_XYZ[axis_in]}\"\n"
   "            self.data_frame[name] = scale_misal[axis_out, axis_in]\n",
   'the same table through np.nonzero')
+# round-6 seed C14: inverse of the transform cached on demand, not invalidated by reset_estimates
+_LC_A = ("        self.transform = np.identity(3)\n        self.bias = np.zeros(3)\n\n    @staticmethod\n")
+_LC_B = ("                self.transform[axis_out, axis_in] += xi\n")
+_LC_C = ("        corrected = np.linalg.solve(self.transform,\n"
+         "                                    (increments.values - self.bias * dt).T).T\n")
+_LC_D = ("    def reset_estimates(self):\n        self.transform = np.identity(3)\n        self.bias = np.zeros(3)\n")
+_LC_A2 = _LC_A.replace("\n\n    @staticmethod", "\n        self._transform_inv = None\n\n    @staticmethod")
+_LC_B2 = _LC_B + "                self._transform_inv = None\n"
+_LC_C2 = ("        if self._transform_inv is None:\n"
+          "            self._transform_inv = np.linalg.inv(self.transform)\n"
+          "        corrected = (increments.values - self.bias * dt) @ self._transform_inv.T\n")
+v('C14 C12', 'fire', IS, [_LC_A, _LC_B, _LC_C], [_LC_A2, _LC_B2, _LC_C2],
+  'round-6 seed C14: cache filled on demand, stale after reset_estimates')
+v('C14 C12 C19', 'silent', IS, [_LC_A, _LC_B, _LC_C, _LC_D],
+  [_LC_A2, _LC_B2, _LC_C2, _LC_D + "        self._transform_inv = None\n"],
+  'the same cache, invalidated by every writer of the transform')
 # COL-BYNAME on row kinds (round-6 seed C05; F8)
 v('C04 C05 C11', 'fire', 'error_model.py', 'pva_error[TRAJECTORY_ERROR_COLS].values)', 'pva_error.values)', 'F8 repair reverted')
 v('C05 C18', 'fire', 'sim.py',
